@@ -42,6 +42,13 @@ ChkJson == [i \in 1..Cardinality(Keys) |->
               LET k == CHOOSE kk \in Keys : Cardinality({x \in Keys : x < kk}) = i - 1 IN
               [j \in 1..MaxVer |-> IF Read(k, j - 1)[1] = "any" THEN "*" ELSE Read(k, j - 1)]]
 
+\* the "last value" view kept by the iterating variant (MVCCIter): newest live record per key
+LastJson == [i \in 1..Cardinality(Keys) |->
+              LET k == CHOOSE kk \in Keys : Cardinality({x \in Keys : x < kk}) = i - 1 IN
+              IF top = 0 THEN <<"none", -1>>
+              ELSE IF Read(k, top - 1)[1] = "any" THEN "*" ELSE Read(k, top - 1)]
+Chk == [t |-> ChkJson, last |-> LastJson]
+
 Emit(r) == act' = IF EmitOn THEN ToJson(r) ELSE ""
 
 Init == /\ top = 0 /\ recs = {} /\ gone = {} /\ wrote = <<>> /\ nops = 0
@@ -55,7 +62,7 @@ AddVersion(ws) ==
      /\ gone' = gone \ new
   /\ wrote' = Append(wrote, ws)
   /\ top' = top + 1 /\ nops' = nops + 1
-  /\ Emit([op |-> "AddVersion", ver |-> top, keys |-> ws, ret |-> "ok", chk |-> ChkJson'])
+  /\ Emit([op |-> "AddVersion", ver |-> top, keys |-> ws, ret |-> "ok", chk |-> Chk'])
 
 \* DelMVCC(strict) of the top version + apply the returned KV list
 \* (version 0 is the genesis block's version and is never removed)
@@ -67,7 +74,7 @@ DelTop ==
      /\ gone' = gone \ old
   /\ wrote' = SubSeq(wrote, 1, top - 1)
   /\ top' = top - 1 /\ nops' = nops + 1
-  /\ Emit([op |-> "DelTop", ver |-> top - 1, ret |-> "ok", chk |-> ChkJson'])
+  /\ Emit([op |-> "DelTop", ver |-> top - 1, ret |-> "ok", chk |-> Chk'])
 
 \* Trash(c): everything at a version <= c except each key's newest record may go
 Newest(k) == MaxOf({v \in Versions : <<k, v>> \in All})
@@ -78,7 +85,7 @@ Trash(c) ==
      /\ gone' = gone \cup may
   /\ nops' = nops + 1
   /\ UNCHANGED <<top, wrote>>
-  /\ Emit([op |-> "Trash", cut |-> c, ret |-> "ok", chk |-> ChkJson'])
+  /\ Emit([op |-> "Trash", cut |-> c, ret |-> "ok", chk |-> Chk'])
 
 GetV(k, u) ==
   /\ UNCHANGED <<top, recs, gone, wrote, nops>>
